@@ -17,6 +17,18 @@ class OutOfScope(Exception):
     """model: the refarg does not denote a column of the table"""
 
 
+class NotTotal(Exception):
+    """model: a window function would be ordered by keys that do not identify the rows of this
+    table (ties): its value is not defined (DESIGN.md section 4.2) - the step is not executed"""
+
+
+def check_total(rec, cx):
+    toks = [cx.resolve(o["a"]) for o in rec.get("ar") or []]
+    rowid = cx.mt.rowid
+    if not rowid or not all(t in toks for t in rowid):
+        raise NotTotal(rec)
+
+
 # ---------------------------------------------------------------------------------------
 # model side
 # ---------------------------------------------------------------------------------------
@@ -113,6 +125,7 @@ def expr_tok(rec, cx: MCtx, new_id: str, *, in_summarize: bool = False) -> Tok:
             cx.resolve(o["a"])
         for p in rec.get("pb") or []:
             cx.resolve(p)
+        check_total(rec, cx)
         return Tok(new_id, "opaque")
     if e == "case":
         pred_check(rec["p"], cx)
@@ -153,6 +166,7 @@ def expr_tok(rec, cx: MCtx, new_id: str, *, in_summarize: bool = False) -> Tok:
             cx.resolve(o["a"])
         for p in rec.get("pb") or []:
             cx.resolve(p)
+        check_total(rec, cx)
         if opaque or src.kind not in ("int", "str"):
             return Tok(new_id, "opaque", nullable=True)
         return src.derive(new_id, lineage=None, nullable=True)
